@@ -562,7 +562,7 @@ def _n4_def(stmts, i, t, rhs, locals_, ptr_locals):
             return
         if not is_pure(rhs) or t in var_refs(rhs):
             return
-        if _ONLY_BOOL[0] and (isptr or not _is_boolean(rhs)):
+        if _ONLY_BOOL[0] and not isptr and not _is_boolean(rhs):
             return
         ops_s = var_refs(rhs)
         ops_a = arrays_read(rhs) if not isptr else set()
@@ -943,7 +943,7 @@ def light(fn):
     n5_ternary(holder)
     fn["body"] = holder["inner"][0]
     sc, pt = local_vars(fn)
-    _ONLY_BOOL[0] = True          # only flags (comparison / logical values): the interpreter keeps its facts on variables
+    _ONLY_BOOL[0] = True          # only flags (comparison / logical values) and pointer temporaries: the interpreter keeps its facts on variables
     try:
         _n4_block(fn["body"]["inner"], sc, pt)
     finally:
